@@ -212,6 +212,7 @@ func TestVerif_C19Agent(t *testing.T) {
 	r.Require("refused_ipv4_dest_by_ipv6_only_config", 60)
 	r.Require("ipv6_literal_not_permitted", 20)
 	r.Require("rebind_probes_hostile", 15)
+	r.Require("zoned_literal_probes", 25)
 }
 
 func c19aHistory(r *verifkit.R, ci int, rng *verifkit.Rand, sink *kitSink, dns *kitDNS, root string) {
@@ -253,6 +254,11 @@ func c19aHistory(r *verifkit.R, ci int, rng *verifkit.Rand, sink *kitSink, dns *
 		}
 		for i, k := 0, rng.Intn(3); i < k; i++ {
 			p := c19aPatterns[rng.Intn(len(c19aPatterns))]
+			patterns = append(patterns, p)
+			cfg.Exit.DomainRoutes = append(cfg.Exit.DomainRoutes, p)
+		}
+		if rng.Chance(1, 3) {
+			p := []string{"*.svc.test", "*.test.local", "*.example.com"}[rng.Intn(3)]
 			patterns = append(patterns, p)
 			cfg.Exit.DomainRoutes = append(cfg.Exit.DomainRoutes, p)
 		}
@@ -339,7 +345,34 @@ func c19aHistory(r *verifkit.R, ci int, rng *verifkit.Rand, sink *kitSink, dns *
 			return c19aV4(rng)
 		}
 		unknownType := false
+		var wild []string
+		for _, pt := range patterns {
+			if strings.HasPrefix(pt, "*.") {
+				wild = append(wild, pt[2:])
+			}
+		}
+		zoned := len(wild) > 0 && rng.Chance(1, 3)
 		switch k := rng.Intn(21); {
+		case zoned: // zoned IP literal dressed up as a sub-domain of an allowed wildcard (domain-typed)
+			ip := pick()
+			b := ip.As4()
+			hex := fmt.Sprintf("%02x%02x:%02x%02x", b[0], b[1], b[2], b[3])
+			base := wild[rng.Intn(len(wild))]
+			var sfx string
+			switch rng.Intn(6) {
+			case 0:
+				sfx, typ = "::ffff:"+hex+"%X."+strings.ToUpper(base), "domain-zoned-ipv4-mapped"
+			case 1:
+				sfx, typ = "::ffff:"+hex+"%25x."+base, "domain-zoned-ipv4-mapped"
+			case 2:
+				sfx, typ = "0::ffff:"+hex+"%x."+base, "domain-zoned-ipv4-mapped"
+			case 3:
+				sfx, typ = []string{"::1", "fe80::1", "fd00::1"}[rng.Intn(3)]+"%x."+base, "domain-zoned-ipv6"
+			default:
+				sfx, typ = "::ffff:"+hex+"%x."+base, "domain-zoned-ipv4-mapped"
+			}
+			addrType, addr, reqTxt = protocol.AddrTypeDomain, append([]byte{byte(len(sfx))}, sfx...), sfx
+			r.Add("zoned_literal_probes", 1)
 		case k == 20: // unknown address type carrying an allowed-looking IPv4: must never be served
 			ip := pick()
 			b := ip.As4()
@@ -438,12 +471,12 @@ func c19aHistory(r *verifkit.R, ci int, rng *verifkit.Rand, sink *kitSink, dns *
 		}
 		var lit netip.Addr
 		if x, err := netip.ParseAddr(reqTxt); err == nil {
-			lit = x.Unmap()
+			lit = x.WithZone("").Unmap()
 		}
 		if len(accs) == 0 {
 			// Decision-level side monitor (see the handler part): a pure IPv6 literal that no present
 			// network covers, answered with a connection-level error code, was let through to the dial.
-			if typ == "ipv6" && lit.IsValid() && lit.Is6() {
+			if (typ == "ipv6" || typ == "domain-zoned-ipv6") && lit.IsValid() && lit.Is6() {
 				r.Add("ipv6_literal_probes", 1)
 				if !c19aInAny(lit, nets) {
 					r.Add("ipv6_literal_not_permitted", 1)
@@ -501,6 +534,8 @@ func c19aHistory(r *verifkit.R, ci int, rng *verifkit.Rand, sink *kitSink, dns *
 			// structural class of the failure: the precondition the harness can compute itself
 			class := "outside-every-network:" + typ
 			switch {
+			case strings.HasPrefix(typ, "domain-zoned-"):
+				class = "zoned-literal-ending-in-allowed-wildcard-base:" + typ
 			case c19aOnlyFamily(nets, false):
 				class = "ipv6-only-configuration:" + typ
 			case c19aInAny(ac.Dest, removedReadded):
